@@ -12,7 +12,8 @@ CHECKS = {
          "block cut) meets the losslessness contract for every input of <=4 (quick) / <=5 (thorough) rows over 8 abstract rows x 5 key shapes "
          "x 3 run sizes; every such scenario, padded so that its rows straddle a real 255-row block boundary, is ingested by the real "
          "sorter+inserter and the stored rows are compared with the expectation TLC exported; seeded real-scale tables (awkward cells, "
-         "duplicate keys at block boundaries, 65535-byte cells, rows > 64 KiB, oversize cells, delimiters, run sizes) are ingested and "
+         "duplicate keys at block boundaries, 65535-byte cells, rows > 64 KiB, oversize cells, delimiters, run sizes, one table of more than 1024 / 2048 blocks, "
+         "one of 40,000-byte cells) are ingested and "
          "the projected events validated by TLC against TraceIngest.tla.",
          "encoding/csv trusted; cell contents sampled from an awkward-content table + seeded random bytes; CLI path covered by the System engine",
          "TLA+ spec Ingest.tla; TLC-enumerated scenarios replayed into pkg/sorter+pkg/ingest; TLC trace validation (TraceIngest.tla) of real-scale ingests",
@@ -40,7 +41,8 @@ CHECKS = {
          "Events = Expected (set-theoretic added/removed/modified), Diff(t,t) = {} and the swap law for every pair of tables over 4 (quick) / 6 "
          "(thorough: 531,441 pairs) abstract keys; every pair is built for real by cluster scaling (abstract key -> 85 or 255 real keys, so real "
          "255-row block boundaries are isomorphic to the model's) and run through the real diff.DiffTables with events, offsets and crash "
-         "behaviour compared; seeded real-scale unaligned pairs (composite keys, no-PK tables, empty sides) are validated by TLC (TraceDiff.tla).",
+         "behaviour compared; seeded real-scale unaligned pairs (composite keys, no-PK tables, empty sides, one generated pair of more than 1024 / 2048 blocks projected with unchanged runs collapsed) are validated by TLC (TraceDiff.tla); "
+         "`wrgl diff` through the command line on branches, files, a file against a branch and tables without a key.",
          "tables are built through the real ingest with unique keys; the interactive table widget of `wrgl diff` is not exercised (its row source RowChangeReader and the --no-gui output are)",
          "TLA+ spec Diff.tla; TLC-enumerated table pairs replayed into pkg/diff; TLC trace validation (TraceDiff.tla)",
          "DESIGN.md 5/C04"),
@@ -123,7 +125,7 @@ CHECKS = {
  "C12": ("prune", "model_checking",
          "Prune.tla states reachability-based Must/MustNot sets and models mark-and-sweep as the code structures it; TLC enumerates all "
          "repositories of <=3 (quick) / <=4 (thorough, 595,056) commits over three block-sharing tables x ref subsets of every kind x absent "
-         "(shallow) tables; each is built for real (ingest-built tables, objmock or badger+sqlite) and run through prune.Prune / wrgl prune / "
+         "(shallow) tables, plus a fourth table listing the first one's blocks under another primary key (same blocks, block indices of its own: R.bix); each is built for real (ingest-built tables, objmock or badger+sqlite) and run through prune.Prune / wrgl prune / "
          "wrgl gc twice, key sets compared with must/mustNot and every surviving commit re-read in full; traces of larger seeded "
          "repositories (also `wrgl gc` with a transaction TTL configured in the repository / the global configuration, under other machine time zones with transactions three hours from their TTL) are validated by TLC (TracePrune.tla).",
          "commit objects named by refs/parents exist; tables are complete or absent",
